@@ -722,9 +722,11 @@ func watPrinter_printFuncs_body_ins(
 }
 
 func watPrinter_identOrIndex(idOrIdx string) string {
-	if ch := idOrIdx[0]; ch >= '0' && ch <= '9' {
-		return idOrIdx
-	} else {
-		return "$" + idOrIdx
+	// 全部是数字才是索引: "3rdparty$pkg.init" 这类以数字开头的名字仍然是标识符
+	for i := 0; i < len(idOrIdx); i++ {
+		if ch := idOrIdx[i]; ch < '0' || ch > '9' {
+			return "$" + idOrIdx
+		}
 	}
+	return idOrIdx
 }
